@@ -321,6 +321,67 @@ theorem par_step_releases_all (cfg : Cfg) (he : cfg.eagerSettle = false) (p : Pr
     refine Eq.trans (congrArg (fun pg => ((List.find? (fun x => x.1 == n.id) pg).map (·.2)).getD []) hpg) ?_
     simp [hnone]
 
+/-- tokens arriving one after the other: what continues, and the state -/
+def arriveAll (cfg : Cfg) (p : Proc) (s : St) (toks : List Tok) : List Tok × St :=
+  toks.foldl (fun (x : List Tok × St) t => let r := arrive cfg p x.2 t; (x.1 ++ r.1, r.2)) ([], s)
+
+theorem arriveAll_go (cfg : Cfg) (p : Proc) (n : Node) (hk : n.kind = .par) :
+    ∀ (toks : List Tok) (acc : List Tok) (s : St),
+      (∀ t ∈ toks, p.node? t.node = some n) →
+      (waitingAt s n.id).length + toks.length < n.ins.length →
+      (toks.foldl (fun (x : List Tok × St) t => let r := arrive cfg p x.2 t; (x.1 ++ r.1, r.2)) (acc, s)).1 = acc ∧
+      (toks.foldl (fun (x : List Tok × St) t => let r := arrive cfg p x.2 t; (x.1 ++ r.1, r.2)) (acc, s)).2.obs = s.obs ∧
+      waitingAt (toks.foldl (fun (x : List Tok × St) t => let r := arrive cfg p x.2 t; (x.1 ++ r.1, r.2)) (acc, s)).2 n.id
+        = waitingAt s n.id ++ toks.map (·.fid) := by
+  intro toks
+  induction toks with
+  | nil => intro acc s _ _; simp
+  | cons t rest ih =>
+    intro acc s hall hlen
+    simp only [List.length_cons] at hlen
+    have ht := hall t (List.mem_cons_self ..)
+    have hstep := par_step_holds cfg p s t n ht hk (by omega)
+    simp only [List.foldl_cons]
+    have hrest := ih (acc ++ (arrive cfg p s t).1) (arrive cfg p s t).2
+      (fun u hu => hall u (List.mem_cons_of_mem _ hu))
+      (by rw [hstep.2.2.2]; simp only [List.length_append, List.length_singleton]; omega)
+    refine ⟨?_, ?_, ?_⟩
+    · rw [hrest.1, hstep.1]; simp
+    · rw [hrest.2.1, hstep.2.1]
+    · rw [hrest.2.2, hstep.2.2.2]; simp
+
+/-- **Parallel join, every arrival order, every width.** Whatever the program around it: while fewer tokens than the
+gateway has incoming flows have arrived — in ANY order, tokens of any identity — nothing continues and nothing is observed;
+the gateway's record is exactly the arrivals so far, in order. -/
+theorem par_join_waits (cfg : Cfg) (p : Proc) (s : St) (n : Node) (hk : n.kind = .par) (toks : List Tok)
+    (hall : ∀ t ∈ toks, p.node? t.node = some n) (hempty : waitingAt s n.id = [])
+    (hfew : toks.length < n.ins.length) :
+    (arriveAll cfg p s toks).1 = [] ∧ (arriveAll cfg p s toks).2.obs = s.obs ∧
+    waitingAt (arriveAll cfg p s toks).2 n.id = toks.map (·.fid) := by
+  have h := arriveAll_go cfg p n hk toks [] s hall (by rw [hempty]; simpa using hfew)
+  unfold arriveAll
+  refine ⟨h.1, h.2.1, ?_⟩
+  rw [h.2.2, hempty]; rfl
+
+/-- … and the arrival that completes the set sends out one token per outgoing flow and empties the record: the gateway is
+ready for its next activation (loops). -/
+theorem par_join_fires (cfg : Cfg) (he : cfg.eagerSettle = false) (p : Proc) (s : St) (n : Node) (hk : n.kind = .par)
+    (toks : List Tok) (last : Tok)
+    (hall : ∀ t ∈ toks, p.node? t.node = some n) (hlast : p.node? last.node = some n)
+    (hempty : waitingAt s n.id = []) (hfull : toks.length + 1 = n.ins.length) :
+    (arriveAll cfg p s (toks ++ [last])).1.length = n.outs.length ∧
+    waitingAt (arriveAll cfg p s (toks ++ [last])).2 n.id = [] := by
+  have hw := par_join_waits cfg p s n hk toks hall hempty (by omega)
+  unfold arriveAll at hw ⊢
+  rw [List.foldl_append]
+  simp only [List.foldl_cons, List.foldl_nil]
+  have hrel := par_step_releases_all cfg he p
+    (toks.foldl (fun (x : List Tok × St) t => let r := arrive cfg p x.2 t; (x.1 ++ r.1, r.2)) ([], s)).2 last n hlast hk
+    (by rw [hw.2.2]; simpa using hfull)
+  refine ⟨?_, hrel.2⟩
+  rw [List.length_append, hw.1]
+  simpa using hrel.1
+
 /-! ## inclusive gateway, throw event -/
 
 theorem igGet_gw (s : St) (id : String) : (igGet s id).gw = id := by
